@@ -33,4 +33,6 @@ CASES = [
          old="            with source.lock:\n                for s in queue:\n                    s.on_next(x)", new="            with source.lock:\n                windows = list(queue)\n            for s in windows:\n                s.on_next(x)")]),
     dict(expect="fire", desc="seed C13-r4/3: Observable.lock is a plain Lock", names="K5-one-lock-object", edits=[dict(file="reactivex/observable/observable.py",
          old="self.lock = threading.RLock()", new="self.lock = threading.Lock()")]),
+    dict(expect="fire", desc="mutant: one amb handler takes the other source's lock", names="K2-one-lock", edits=[dict(file="reactivex/operators/_amb.py",
+         old="        def on_next_left(value: _T) -> None:\n            with left_source.lock:", new="        def on_next_left(value: _T) -> None:\n            with obs.lock:")]),
 ]
